@@ -385,6 +385,49 @@ fn run_case(c: &Case) -> CaseOut {
                 stats,
             }
         }
+        "wsearch" => {
+            // the whole wrapper stage against the Lean model with the model of the search inside: solutions applied (in
+            // order), final counters and changed contents
+            let snap = stages::run_stages(&c.input, &c.cfg, &[]);
+            let mut alnum: Vec<String> = vec![];
+            for (_, content, kind) in &snap.raw {
+                if kind.starts_with("Comment(") {
+                    if let Ok(s) = std::str::from_utf8(content) {
+                        if let Some(rest) = s.strip_prefix("//") {
+                            let rest = rest.strip_prefix('/').unwrap_or(rest);
+                            if let Some(ch) = rest.chars().next() {
+                                if !ch.is_ascii() && ch.is_alphanumeric() {
+                                    let h = proto::hex(ch.to_string().as_bytes());
+                                    if !alnum.contains(&h) {
+                                        alnum.push(h);
+                                    }
+                                }
+                            }
+                        }
+                    }
+                }
+            }
+            bump(&mut stats, "tokens", snap.raw.len());
+            bump(&mut stats, "lines", snap.lines.len());
+            bump(&mut stats, "solutions", snap.solutions.len());
+            bump(&mut stats, "log_no_solution", snap.log_no_solution);
+            bump(&mut stats, "log_iter_limit", snap.log_iter_limit);
+            let in_line = format!(
+                "wsearch\t{}\t{}\t{}\t{}\t{}",
+                c.cfg.to_proto(),
+                proto::hex(c.input.as_bytes()),
+                proto::list(&snap.kinds),
+                proto::lines(&snap.lines),
+                proto::list(&alnum),
+            );
+            let exp_line = format!(
+                "ws={}\twp={}\twcn={}",
+                proto::list(&snap.solutions.iter().map(|(p, l, s)| format!("{}:{}:{}", p, l, s)).collect::<Vec<_>>()),
+                proto::fmts(&snap.fmt_post),
+                proto::changed(&snap.contents_pre, &snap.contents_post),
+            );
+            CaseOut { in_line, exp_line, oracle_failures, stats }
+        }
         "pfull" => {
             // the whole logical-line parser (control flow included) against the Lean model: raw kinds and, for the
             // assembler-instruction splitter, whether a token's leading whitespace holds a line break
@@ -588,6 +631,12 @@ fn mls_shift_case(r: &mut Rng) -> (String, Cfg) {
     if cfg.cont > 8 {
         cfg.cont = 2;
     }
+    if r.chance(2, 3) {
+        // ordinary units, so that a tail that fits is joined rather than exploded
+        cfg.tab_width = *r.pick(&[2u8, 2, 4]);
+        cfg.cont = *r.pick(&[1u8, 2, 2]);
+        cfg.use_tabs = false;
+    }
     let tail_len = r.range(12, 60);
     let mut tail = String::from(r.pick_str(&[".Format([", " + Concat(", ".Replace(", ".Trim("]));
     let mut i = 0;
@@ -599,6 +648,13 @@ fn mls_shift_case(r: &mut Rng) -> (String, Cfg) {
         i += 1;
     }
     tail.push_str(if tail.starts_with(".Format") { "]);" } else { ");" });
+    // the tail may hold an anonymous routine whose body has a multi-line string of its own (a child line with a literal
+    // that moves when the parent line is re-wrapped)
+    if r.chance(1, 3) {
+        let q = " ".repeat(r.range(0, 10));
+        let call = r.pick_str(&[".ForEach(", ".Apply(A, ", " + Run("]);
+        tail = format!("{call}procedure(S: string) begin Y := '''\n{q}inner\n{q}'''; end);");
+    }
     let ctx = r.range(0, 3);
     let build = |pad: usize| -> String {
         let pad = " ".repeat(pad);
@@ -621,13 +677,24 @@ fn mls_shift_case(r: &mut Rng) -> (String, Cfg) {
         None => return (probe, cfg),
     };
     // final width of the closing-quote line in columns (tabs count one byte each in the wrapper's measure)
-    let new_width = f + 3 + tail.len();
-    let delta = r.range(1, 40);
-    let over = r.chance(2, 3) || f < delta;
+    let tail_first = tail.split('\n').next().unwrap_or("").len();
+    let new_width = f + 3 + tail_first;
+    // sometimes so far to the right that not even the first call of the tail fits behind the closing quotes before
+    // the re-indentation (the whole tail moves to the next line in the first wrapping and comes back in the re-wrap)
+    let far = r.chance(1, 3);
+    let delta = if far { r.range(tail_first.saturating_sub(6).max(1), tail_first + 30) } else { r.range(1, 40) };
+    let over = far || r.chance(2, 3) || f < delta;
     let pad = if over { f + delta } else { f - delta };
-    let old_width = pad + 3 + tail.len();
+    let old_width = pad + 3 + tail_first;
     let base = if r.chance(1, 2) { new_width } else { old_width };
-    let w = (base as i64 + r.range(0, 4) as i64 - 2).max(1) as u32;
+    let mut w = (base as i64 + r.range(0, 4) as i64 - 2).max(1) as u32;
+    if over && old_width > new_width && r.chance(1, 2) {
+        // any column the closing-quote line fits after the re-indentation but not before
+        w = r.range(new_width, old_width - 1) as u32;
+    }
+    if far && pad + 3 + 8 >= new_width {
+        w = r.range(new_width.max(pad + 3), pad + 3 + 8) as u32;
+    }
     cfg.wrap_column = w;
     (build(pad), cfg)
 }
@@ -727,6 +794,11 @@ fn gen_inputs(family: &str, rng: &mut Rng, n: usize, seeds: &[String]) -> Vec<St
         "c11mini" => {
             for _ in 0..n {
                 v.push(c11_mini(rng));
+            }
+        }
+        "asmreg" => {
+            for _ in 0..n {
+                v.push(asm_regions(rng));
             }
         }
         "pairs" => {
@@ -1016,7 +1088,7 @@ fn cmd_emit(a: &Args) {
             if fam == "boundary" {
                 cfg.wrap_column = boundary_width(&input, &cfg, &mut r);
             }
-            let well_formed = matches!(fam.as_str(), "grammar" | "layout" | "seeds" | "seeds_sample" | "regions" | "mlsfam" | "boundary" | "c11mini")
+            let well_formed = matches!(fam.as_str(), "grammar" | "layout" | "seeds" | "seeds_sample" | "regions" | "mlsfam" | "boundary" | "c11mini" | "asmreg")
                 && !(fam.starts_with("seeds") && oracles::has_unterminated_token(&input));
             let mut cursors = vec![];
             if oracle_list.iter().any(|o| o == "c15") {
